@@ -6,7 +6,7 @@ package main
 // parameters (regimes listed below), read back by the hook sdf.VerifDumpTree2 and printed as a term
 // of coq/Sdf/Reify.v over exact rationals; coqc interprets the term with the Gallina model at
 // primitive floats and compares the box and the values at 24 points (inside, near the box faces,
-// up to 3x the box away) with BoundingBox()/Evaluate() of the Go object, and evaluates the checker
+// up to 3x the box away; for spirals 36 more placed relative to the curve: every angular sector and turn) with BoundingBox()/Evaluate() of the Go object, and evaluates the checker
 // wfb2, whose verdict must be the one predicted here.  For ArcSpiral2D - whose constructor and Evaluate
 // (unbounded `for` loops, math.Round) are not translated by harness/sdfgen - this is the tie of the
 // model to the code; for the others it runs underneath the TRANSL equalities of Sdf/GenEqX.v.
@@ -80,6 +80,9 @@ func primsStratum(c *Ctx, r *Report, rng *Rng) error {
 		k0 := []float64{0, u(1, 30), -u(1, 30), u(-2, 2)}[i%4]
 		start := u(-2, 2) * sdf.Tau
 		end := start + u(0.3, 6)*sdf.Tau
+		if i%3 == 0 {
+			end = start + u(0.1, 0.9)*sdf.Tau // less than one turn: there is an angular gap between end and start
+		}
 		if i%3 == 2 {
 			start, end = end, start
 		}
@@ -97,8 +100,8 @@ func primsStratum(c *Ctx, r *Report, rng *Rng) error {
 		add("rack", fmt.Sprintf("GearRack2D(%+v)", kk), s, err)
 	}
 
-	// outside the class of the theorems (the checker must say so): flank radius exactly at the accepted minimum
-	// (the cam degenerates into the flank circle), a negative band half-width
+	// the accepted minimum of the flank radius (the cam degenerates into the flank circle: still certified), and a
+	// spiral outside the class of the theorems (negative band half-width: the checker must say so)
 	{
 		s, err := sdf.ThreeArcCam2D(10, 5, 2, 8.5)
 		add("threearc-at-minimum", "ThreeArcCam2D(10,5,2,8.5)", s, err)
@@ -173,6 +176,24 @@ func primsStratum(c *Ctx, r *Report, rng *Rng) error {
 			}
 			pts = append(pts, fl(p.X, p.Y, v))
 		}
+		if root.Kind == "ArcSpiral" {
+			// points placed relative to the curve, so that every branch of Evaluate is met: polar angle inside the
+			// range, just before the start, just after the end and in the gap of a spiral shorter than a turn; polar
+			// radius on the turn through that angle, one turn in and out, inside the first and beyond the last turn
+			a, k0, st0, en0, dd := root.F[0], root.F[1], root.F[2], root.F[3], root.F[4]
+			for j := 0; j < 36; j++ {
+				frac := []float64{-0.6, -0.2, -0.03, 0.02, 0.5, 0.97, 1.04, 1.25, 1.7}[j%9]
+				th := st0 + frac*(en0-st0)
+				turn := []float64{0, -1, 1, 2}[(j/9)%4]
+				rad := a*(th+turn*sdf.Tau) + k0 + []float64{0.3, -0.4, 1.5, -2.5}[j%4]*dd
+				p := v2.Vec{X: rad * math.Cos(th), Y: rad * math.Sin(th)}
+				v := pc.s.Evaluate(p)
+				if math.IsNaN(v) || math.IsInf(v, 0) {
+					continue
+				}
+				pts = append(pts, fl(p.X, p.Y, v))
+			}
+		}
 		defs = append(defs, fmt.Sprintf("(* %d: %s *)", id+1, strings.ReplaceAll(pc.key, "*", "x")))
 		defs = append(defs, rf.defs...)
 		cases = append(cases, fmt.Sprintf("(%d%%N, T2 %s, %s, %s, %s, %d%%N)", id+1, rootName, fl(gb...), CF(1e-9*scale), CList(pts), st))
@@ -201,7 +222,7 @@ func primsStratum(c *Ctx, r *Report, rng *Rng) error {
 	}
 	r.Coverage["prims"] = map[string]interface{}{
 		"objects_by_stratum_and_verdict": status,
-		"rule":                           "cams, flange, spiral and gear rack built through the public constructors at generated parameters (smaller / larger nose, nearly nested circles, flank radius 1.0001x .. 50x the minimum, spiral slopes and offsets of both signs, reversed and negative angle ranges, bands wider than the spiral pitch, rack with and without base / backlash; scales 1e-3 .. 1e3), read back by the hook, replayed inside coqc at primitive floats (box + 24 values per object incl. the origin and the axes, absolute tolerance 1e-9 x box scale; I_prims lists the objects that are not bit-exact) and put through the checker wfb2; the enclosure is searched outside the box on every object the checker accepts",
+		"rule":                           "cams, flange, spiral and gear rack built through the public constructors at generated parameters (smaller / larger nose, nearly nested circles, flank radius 1.0001x .. 50x the minimum, spiral slopes and offsets of both signs, reversed and negative angle ranges, bands wider than the spiral pitch, rack with and without base / backlash; scales 1e-3 .. 1e3), read back by the hook, replayed inside coqc at primitive floats (box + 24 values per object incl. the origin and the axes, spirals: + 36 points placed relative to the curve - angle inside the range / before the start / after the end / in the gap of a spiral shorter than a turn, radius on that turn, one turn in or out, absolute tolerance 1e-9 x box scale; I_prims lists the objects that are not bit-exact) and put through the checker wfb2; the enclosure is searched outside the box on every object the checker accepts",
 	}
 	return nil
 }
